@@ -62,7 +62,7 @@ StateOf(post, pred) ==
               running |-> post.srv.running, wasRunning |-> pred.srv.wasRunning, tickChanged |-> pred.srv.tickChanged,
               timerAcc |-> pred.srv.timerAcc, now |-> post.srv.now,
               world |-> [e \in Ents |-> NormEnt(post.srv.world[e])],
-              remEv |-> pred.srv.remEv,
+              remEv |-> pred.srv.remEv, remEvOld |-> pred.srv.remEvOld,
               despawnBuf |-> post.srv.despawnBuf,
               removalBuf |-> [e \in DOMAIN post.srv.removalBuf |-> ToSet(post.srv.removalBuf[e]) \cap P!Comp],
               cl |-> [c \in Clients |-> NormSrvCl(post.srv.cl[c])]],
@@ -220,6 +220,17 @@ Violations(r, old, obs, gg, gePre, geNew) ==
 
 MaxPrint == 40
 
+\* monitors-only mode (relation profiles: the hierarchy is not part of the core model, so only the
+\* property monitors are evaluated on the observed states; no conformance)
+MonitorsOnly == "MONITORS_ONLY" \in DOMAIN IOEnv
+
+\* relation profiles: at quiescence every held entity has the parent the server has (through the map)
+ParentsAgree(post) ==
+    \A c \in Clients : (post.srv.cl[c].conn /\ post.srv.cl[c].auth /\ post.cli[c].status = "Connected") =>
+        \A e \in DOMAIN post.cli[c].ents :
+            (post.cli[c].ents[e].alive /\ post.cli[c].ents[e].hist >= 0 /\ post.srv.world[e].alive /\ post.srv.world[e].repl)
+                => post.cli[c].ents[e].parent = post.srv.world[e].parent
+
 Step ==
     /\ l <= Len(Rec)
     /\ LET r == Rec[l]
@@ -230,8 +241,10 @@ Step ==
           \E obs \in {StateOf(r.post, pr.st)} :
           \E g1 \in {GhostStep(IF isInit THEN P!GhostInit ELSE g, r, base, obs, pr.ran)} :
           \E ge1 \in {EvGhostStep(geBase, r, base, obs)} :
-            LET ds == Diffs(pr.st, obs) \cup (IF pr.ok THEN {} ELSE {<<"enabled", r.ev, "-">>}) \cup DeliveryDiff(r, pr)
+            LET ds == IF MonitorsOnly THEN {}
+                      ELSE Diffs(pr.st, obs) \cup (IF pr.ok THEN {} ELSE {<<"enabled", r.ev, "-">>}) \cup DeliveryDiff(r, pr)
                 vs == Violations(r, base, obs, g1, geBase, ge1)
+                      \cup (IF r.ev = "Quiesce" /\ Cfg.rel /\ ~ParentsAgree(r.post) THEN {"C01parent"} ELSE {})
                 printable(d) == d[1] \notin {"enabled", "delivered"}
             IN /\ \A d \in ds :
                     (nd < MaxPrint) =>
